@@ -3,5 +3,8 @@ EXTENDS VarPoolImpl
 ReqSet == {<<"name", "foo">>, <<"name", "foo0">>, <<"name", "foo1">>, <<"name", "fooCh">>, <<"name", "fooCh0">>,
            <<"name", "err">>, <<"name", "err0">>, <<"chan", "foo">>, <<"chan", "foo0">>, <<"name", "pkg">>, <<"name", "string">>,
            <<"name", "int3">>}   \* int3, int30, int31, then int32 is predeclared
+\* for histories of length 5 (thorough): fewer request kinds, still every collision class
+ReqSet5 == {<<"name", "foo">>, <<"name", "foo0">>, <<"name", "fooCh">>, <<"name", "err">>, <<"name", "err0">>, <<"chan", "foo">>,
+            <<"chan", "foo0">>, <<"name", "pkg">>, <<"name", "int3">>}
 Pre == {"pkg", "pkg0"}
 ====
